@@ -15,10 +15,17 @@ import (
 	"encoding/json"
 	"fmt"
 	"io"
+	"net"
 	"net/http"
 	"net/http/httptest"
+	"os"
+	"os/exec"
+	"path/filepath"
+	"sort"
 	"strconv"
+	"strings"
 	"sync"
+	"sync/atomic"
 	"testing"
 	"time"
 
@@ -80,12 +87,34 @@ func c19NewProxy(cfg *config.Config, routes string) (*HTTPProxy, error) {
 
 const c19Slack = 1500 * time.Millisecond
 
+// TestVerifC19Behaviour is the entry point: single requests ($VERIF_IN), concurrent requests and
+// idle-connection reuse ($VERIF_IN_CONC), the built fabio binary ($VERIF_FABIO_BIN).
 func TestVerifC19Behaviour(t *testing.T) {
+	defer transport.SetConfig(&config.Config{})
+	sum := map[string]any{}
+	if os.Getenv("VERIF_IN") != "" {
+		for k, v := range c19BehaviourPart(t) {
+			sum[k] = v
+		}
+	}
+	if os.Getenv("VERIF_IN_CONC") != "" {
+		for k, v := range c19ConcurrentPart(t) {
+			sum[k] = v
+		}
+	}
+	if os.Getenv("VERIF_FABIO_BIN") != "" {
+		for k, v := range c19BinaryPart(t) {
+			sum[k] = v
+		}
+	}
+	verifx.Summary(sum)
+}
+
+func c19BehaviourPart(t *testing.T) map[string]any {
 	cases, err := verifx.ReadCases[c19Beh]("")
 	if err != nil {
 		t.Fatal(err)
 	}
-	defer transport.SetConfig(&config.Config{})
 
 	// upstreams: answer after ?d=<ms>; give up early when the proxy has gone away
 	slow := http.HandlerFunc(func(w http.ResponseWriter, r *http.Request) {
@@ -233,5 +262,449 @@ func TestVerifC19Behaviour(t *testing.T) {
 			nontrivial++
 		}
 	}
-	verifx.Summary(map[string]any{"cases": len(cases), "ran": ran, "retried": retried, "unstable": unstable, "distinct_nontrivial": nontrivial, "samples": samples})
+	return map[string]any{"cases": len(cases), "ran": ran, "retried": retried, "unstable": unstable, "distinct_nontrivial": nontrivial, "samples": samples}
+}
+
+// ---------------------------------------------------------------- concurrency and idle reuse
+
+type c19Conc struct {
+	T     string `json:"t"` // "conc" | "reuse"
+	C     c19Cfg `json:"c"`
+	Kind  string `json:"kind"`
+	N     int    `json:"n"`
+	Class string `json:"class"`
+	Delay int    `json:"delay"`
+	Out   struct {
+		Status int `json:"status"`
+		Within int `json:"within"`
+	} `json:"out"`
+	New int `json:"new"`
+}
+
+// c19Upstream answers after ?d=<ms> and counts the connections it accepts.
+type c19Upstream struct {
+	srv   *httptest.Server
+	conns int64
+}
+
+func c19NewUpstream(secure bool) *c19Upstream {
+	u := &c19Upstream{}
+	h := http.HandlerFunc(func(w http.ResponseWriter, r *http.Request) {
+		d, _ := strconv.Atoi(r.URL.Query().Get("d"))
+		if d > 0 {
+			tm := time.NewTimer(time.Duration(d) * time.Millisecond)
+			defer tm.Stop()
+			select {
+			case <-tm.C:
+			case <-r.Context().Done():
+				return
+			}
+		}
+		w.Header().Set("Content-Length", "2")
+		w.WriteHeader(200)
+		io.WriteString(w, "ok")
+	})
+	u.srv = httptest.NewUnstartedServer(h)
+	u.srv.Config.ConnState = func(c net.Conn, st http.ConnState) {
+		if st == http.StateNew {
+			atomic.AddInt64(&u.conns, 1)
+		}
+	}
+	if secure {
+		u.srv.StartTLS()
+	} else {
+		u.srv.Start()
+	}
+	return u
+}
+
+func c19Route(name, path string, kind string, up *c19Upstream) string {
+	switch kind {
+	case "insecure":
+		return fmt.Sprintf("route add %s %s %s/ opts \"tlsskipverify=true\"", name, path, up.srv.URL)
+	case "hostoverride":
+		return fmt.Sprintf("route add %s %s %s/ opts \"host=x.test tlsskipverify=true\"", name, path, up.srv.URL)
+	}
+	return fmt.Sprintf("route add %s %s %s/", name, path, up.srv.URL)
+}
+
+// c19Burst sends n requests at once and returns status and latency of each.
+func c19Burst(url string, n int, timeout time.Duration) (status []int, el []time.Duration, errs []error) {
+	status, el, errs = make([]int, n), make([]time.Duration, n), make([]error, n)
+	var wg sync.WaitGroup
+	start := make(chan struct{})
+	for i := 0; i < n; i++ {
+		wg.Add(1)
+		go func(i int) {
+			defer wg.Done()
+			cl := &http.Client{Timeout: timeout, Transport: &http.Transport{DisableKeepAlives: true}}
+			<-start
+			t0 := time.Now()
+			resp, err := cl.Get(url)
+			el[i] = time.Since(t0)
+			if err != nil {
+				errs[i] = err
+				return
+			}
+			io.Copy(io.Discard, resp.Body)
+			resp.Body.Close()
+			status[i] = resp.StatusCode
+		}(i)
+	}
+	close(start)
+	wg.Wait()
+	return
+}
+
+func c19ConcurrentPart(t *testing.T) map[string]any {
+	cases, err := verifx.ReadCases[c19Conc]("VERIF_IN_CONC")
+	if err != nil {
+		t.Fatal(err)
+	}
+	type verdict struct{ clause, msg string }
+	type unit struct {
+		c   c19Conc
+		run func() verdict
+		w   int // concurrent requests it issues
+	}
+	var units []unit
+	var closers []func()
+	defer func() {
+		for _, f := range closers {
+			f()
+		}
+	}()
+	for _, c := range cases {
+		c := c
+		cfg := c19Config(c.C)
+		transport.SetConfig(cfg)
+		secure := c.Kind != "default"
+		switch c.T {
+		case "conc":
+			up := c19NewUpstream(secure)
+			p, err := c19NewProxy(cfg, c19Route("svc", "/", c.Kind, up))
+			if err != nil {
+				t.Fatal(err)
+			}
+			srv := httptest.NewServer(p)
+			closers = append(closers, srv.Close, up.srv.Close)
+			T := time.Duration(c.C.Rht) * time.Millisecond
+			bound := time.Duration(c.Out.Within)*time.Millisecond + c19Slack
+			units = append(units, unit{c: c, w: c.N, run: func() verdict {
+				st, el, errs := c19Burst(srv.URL+"/?d="+strconv.Itoa(c.Delay), c.N, bound+time.Duration(c.Delay)*time.Millisecond+3*time.Second)
+				order := make([]int, len(st)) // judge the slowest request first
+				for i := range order {
+					order[i] = i
+				}
+				sort.Slice(order, func(a, b int) bool { return el[order[a]] > el[order[b]] })
+				for _, i := range order {
+					switch {
+					case errs[i] != nil && c.Out.Status == 504:
+						return verdict{"held", fmt.Sprintf("%d concurrent requests to an upstream that needs %d ms (response-header timeout %v): request %d got no answer within %v: %v", c.N, c.Delay, T, i+1, el[i], errs[i])}
+					case errs[i] != nil:
+						return verdict{"client-error", fmt.Sprintf("request %d of %d failed after %v: %v", i+1, c.N, el[i], errs[i])}
+					case st[i] != c.Out.Status:
+						return verdict{"status", fmt.Sprintf("%d concurrent requests (upstream delay %d ms, response-header timeout %v): request %d got status %d after %v, want %d", c.N, c.Delay, T, i+1, st[i], el[i], c.Out.Status)}
+					case c.Out.Status == 504 && el[i] > bound:
+						return verdict{"held", fmt.Sprintf("%d concurrent requests to an upstream that needs %d ms: request %d got its 504 after %v, want within %v (timeout %v + slack): the client was held beyond the configured response-header timeout", c.N, c.Delay, i+1, el[i], bound, T)}
+					}
+				}
+				return verdict{}
+			}})
+		case "reuse":
+			a, b := c19NewUpstream(secure), c19NewUpstream(secure)
+			p, err := c19NewProxy(cfg, c19Route("a", "/a", c.Kind, a)+"\n"+c19Route("b", "/b", c.Kind, b))
+			if err != nil {
+				t.Fatal(err)
+			}
+			srv := httptest.NewServer(p)
+			closers = append(closers, srv.Close, a.srv.Close, b.srv.Close)
+			units = append(units, unit{c: c, w: c.N, run: func() verdict {
+				// every round starts from an empty pool
+				for _, tr := range []http.RoundTripper{p.Transport, p.InsecureTransport} {
+					if x, ok := tr.(*http.Transport); ok {
+						x.CloseIdleConnections()
+					}
+				}
+				start := atomic.LoadInt64(&a.conns)
+				for _, leg := range []string{"/a", "/b"} {
+					st, _, errs := c19Burst(srv.URL+leg+"?d=200", c.N, 20*time.Second)
+					for i := range st {
+						if errs[i] != nil || st[i] != 200 {
+							return verdict{"client-error", fmt.Sprintf("burst %s: request %d: status %d err %v", leg, i+1, st[i], errs[i])}
+						}
+					}
+				}
+				before := atomic.LoadInt64(&a.conns)
+				kept := int(before - start) // connections the first A burst opened (fewer than n if requests did not overlap)
+				if kept > c.C.MaxIdle {
+					kept = c.C.MaxIdle
+				}
+				allowed := c.New
+				if c.N-kept > allowed {
+					allowed = c.N - kept
+				}
+				st, _, errs := c19Burst(srv.URL+"/a?d=200", c.N, 20*time.Second)
+				for i := range st {
+					if errs[i] != nil || st[i] != 200 {
+						return verdict{"client-error", fmt.Sprintf("second burst /a: request %d: status %d err %v", i+1, st[i], errs[i])}
+					}
+				}
+				if opened := int(atomic.LoadInt64(&a.conns) - before); opened > allowed {
+					return verdict{"idle-evicted", fmt.Sprintf("bursts of %d requests to upstream A, to upstream B, to A again through one transport (proxy.maxconn %d idle connections per host, idle timeout %d ms not elapsed): the second A burst opened %d new connections, at most %d may be (the first one opened %d)", c.N, c.C.MaxIdle, c.C.Idle, opened, allowed, kept)}
+				}
+				return verdict{}
+			}})
+		}
+	}
+	// waves of at most ~160 concurrent requests; a verdict counts in a wave without a stall,
+	// a case is reported when it failed in two such waves
+	strikes := map[int]int{}
+	last := map[int]verdict{}
+	var ran, voided int
+	unstable := false
+	pending := make([]int, len(units))
+	for i := range pending {
+		pending[i] = i
+	}
+	for pass := 0; pass < 2 && len(pending) > 0; pass++ {
+		var again []int
+		for len(pending) > 0 {
+			var wave []int
+			load := 0
+			for len(pending) > 0 && (len(wave) == 0 || load+units[pending[0]].w <= 160) {
+				wave = append(wave, pending[0])
+				load += units[pending[0]].w
+				pending = pending[1:]
+			}
+			ok := false
+			for try := 0; try < 4 && !ok; try++ {
+				sw := verifx.WatchStalls()
+				res := make([]verdict, len(units))
+				var wg sync.WaitGroup
+				for _, i := range wave {
+					wg.Add(1)
+					go func(i int) {
+						defer wg.Done()
+						res[i] = units[i].run()
+					}(i)
+				}
+				wg.Wait()
+				ran += len(wave)
+				if gap := sw.Stop(); gap > 150*time.Millisecond {
+					voided++
+					verifx.Emit(map[string]any{"kind": "note", "msg": fmt.Sprintf("concurrent wave void: the process stalled for %v", gap)})
+					continue
+				}
+				ok = true
+				for _, i := range wave {
+					if res[i].clause != "" {
+						strikes[i]++
+						last[i] = res[i]
+						again = append(again, i)
+					}
+				}
+			}
+			if !ok {
+				unstable = true
+			}
+		}
+		pending = again
+	}
+	nontrivial := 0
+	var samples []string
+	for i, u := range units {
+		if u.c.N > 1 {
+			nontrivial++
+		}
+		if strikes[i] >= 2 {
+			f := map[string]any{"sub": "concurrent", "kind": u.c.Kind, "clause": last[i].clause, "n": c19NClass(u.c)}
+			if u.c.T == "reuse" {
+				f["sub"] = "reuse"
+			}
+			verifx.Fail(u.c, f, "%s transport, SetConfig(%s): %s", u.c.Kind, u.c.C.Name, last[i].msg)
+		}
+		if i%19 == 5 && len(samples) < 2 {
+			bj, _ := json.Marshal(u.c)
+			samples = append(samples, string(bj))
+		}
+	}
+	return map[string]any{"conc_cases": len(units), "conc_ran": ran, "conc_voided": voided, "conc_unstable": unstable, "conc_nontrivial": nontrivial, "conc_samples": samples}
+}
+
+// c19NClass names the size of a burst relative to proxy.maxconn.
+func c19NClass(c c19Conc) string {
+	m := c.C.MaxIdle
+	switch {
+	case c.N == 1:
+		return "1"
+	case c.N < m:
+		return "<maxconn"
+	case c.N == m:
+		return "maxconn"
+	case c.N == m+1:
+		return "maxconn+1"
+	}
+	return ">maxconn"
+}
+
+// ---------------------------------------------------------------- the binary: main()'s wiring
+
+// c19BinaryPart runs the fabio binary built from the tree ($VERIF_FABIO_BIN) with the static
+// registry.  The FIRST routing table holds a default, a skip-verify and a host-override route
+// to upstreams that answer after ?d=<ms>; -proxy.responseheadertimeout 300ms must cut all three.
+func c19BinaryPart(t *testing.T) map[string]any {
+	exe := os.Getenv("VERIF_FABIO_BIN")
+	plain, secure := c19NewUpstream(false), c19NewUpstream(true)
+	defer plain.srv.Close()
+	defer secure.srv.Close()
+	routes := strings.Join([]string{
+		"route add plain /plain " + plain.srv.URL + "/",
+		"route add skip /skip " + secure.srv.URL + `/ opts "tlsskipverify=true"`,
+		"route add host /host " + secure.srv.URL + `/ opts "host=x.test proto=https tlsskipverify=true"`,
+	}, "\n")
+	const T = 300 * time.Millisecond
+	freePort := func() int {
+		l, err := net.Listen("tcp", "127.0.0.1:0")
+		if err != nil {
+			t.Fatal(err)
+		}
+		defer l.Close()
+		return l.Addr().(*net.TCPAddr).Port
+	}
+	var cmd *exec.Cmd
+	var base string
+	logf := filepath.Join(os.Getenv("VERIF_TMP"), "fabio-c19.log")
+	for attempt := 0; attempt < 3 && cmd == nil; attempt++ {
+		pp, ap := freePort(), freePort()
+		c := exec.Command(exe, "-proxy.addr", fmt.Sprintf("127.0.0.1:%d", pp), "-ui.addr", fmt.Sprintf("127.0.0.1:%d", ap),
+			"-registry.backend", "static", "-registry.static.routes", routes,
+			"-proxy.responseheadertimeout", "300ms", "-proxy.dialtimeout", "2s", "-proxy.maxconn", "50",
+			"-metrics.target", "", "-log.level", "WARN")
+		lf, _ := os.Create(logf)
+		c.Stdout, c.Stderr = lf, lf
+		if err := c.Start(); err != nil {
+			verifx.Emit(map[string]any{"kind": "error", "msg": "cannot start fabio: " + err.Error()})
+			return map[string]any{"binary_ran": 0}
+		}
+		exited := make(chan struct{})
+		go func() { c.Wait(); close(exited) }()
+		base = fmt.Sprintf("http://127.0.0.1:%d", pp)
+		ready := false
+		deadline := time.Now().Add(30 * time.Second)
+	wait:
+		for time.Now().Before(deadline) {
+			select {
+			case <-exited:
+				break wait
+			default:
+			}
+			cl := &http.Client{Timeout: 2 * time.Second}
+			if resp, err := cl.Get(base + "/plain?d=0"); err == nil {
+				resp.Body.Close()
+				if resp.StatusCode == 200 {
+					ready = true
+					break
+				}
+			}
+			time.Sleep(50 * time.Millisecond) // readiness polling, not a verdict
+		}
+		if ready {
+			cmd = c
+			defer func() {
+				c.Process.Signal(os.Interrupt)
+				select {
+				case <-exited:
+				case <-time.After(5 * time.Second):
+					c.Process.Kill()
+				}
+			}()
+		} else {
+			c.Process.Kill()
+			<-exited
+		}
+	}
+	if cmd == nil {
+		b, _ := os.ReadFile(logf)
+		if len(b) > 1500 {
+			b = b[len(b)-1500:]
+		}
+		verifx.Emit(map[string]any{"kind": "error", "msg": "fabio did not start serving the static routes: " + string(b)})
+		return map[string]any{"binary_ran": 0}
+	}
+	type probe struct {
+		path  string
+		delay int
+		want  int
+	}
+	var probes []probe
+	for _, p := range []string{"/plain", "/skip", "/host"} {
+		probes = append(probes, probe{p, 0, 200}, probe{p, 30, 200}, probe{p, 3000, 504})
+	}
+	ran := 0
+	strikes := map[int]int{}
+	last := map[int][2]string{}
+	pending := make([]int, len(probes))
+	for i := range pending {
+		pending[i] = i
+	}
+	valid, unstable := 0, false
+	for round := 0; round < 6 && len(pending) > 0 && valid < 2; round++ {
+		sw := verifx.WatchStalls()
+		res := make([][2]string, len(probes))
+		var wg sync.WaitGroup
+		for _, i := range pending {
+			wg.Add(1)
+			go func(i int) {
+				defer wg.Done()
+				p := probes[i]
+				bound := T + c19Slack
+				cl := &http.Client{Timeout: bound + time.Duration(p.delay)*time.Millisecond/4 + 2*time.Second, Transport: &http.Transport{DisableKeepAlives: true}}
+				t0 := time.Now()
+				resp, err := cl.Get(base + p.path + "?d=" + strconv.Itoa(p.delay))
+				el := time.Since(t0)
+				st := 0
+				if err == nil {
+					io.Copy(io.Discard, resp.Body)
+					resp.Body.Close()
+					st = resp.StatusCode
+				}
+				switch {
+				case p.want == 504 && st != 504:
+					res[i] = [2]string{"not-cut-off", fmt.Sprintf("status %d after %v (err %v); the upstream needs %d ms, -proxy.responseheadertimeout 300ms: want 504 within %v", st, el, err, p.delay, bound)}
+				case p.want == 504 && el > bound:
+					res[i] = [2]string{"late", fmt.Sprintf("504 after %v, want within %v", el, bound)}
+				case p.want == 200 && st != 200:
+					res[i] = [2]string{"timely-upstream-not-served", fmt.Sprintf("status %d after %v (err %v); the upstream answers after %d ms", st, el, err, p.delay)}
+				}
+			}(i)
+		}
+		wg.Wait()
+		ran += len(pending)
+		if gap := sw.Stop(); gap > 150*time.Millisecond {
+			verifx.Emit(map[string]any{"kind": "note", "msg": fmt.Sprintf("binary round %d void: the process stalled for %v", round, gap)})
+			continue
+		}
+		valid++
+		var next []int
+		for _, i := range pending {
+			if res[i][0] != "" {
+				strikes[i]++
+				last[i] = res[i]
+				next = append(next, i)
+			}
+		}
+		pending = next
+	}
+	if len(pending) > 0 && valid < 2 {
+		unstable = true
+	}
+	for i, p := range probes {
+		if strikes[i] >= 2 {
+			kind := map[string]string{"/plain": "default", "/skip": "insecure", "/host": "hostoverride"}[p.path]
+			verifx.Fail(map[string]any{"path": p.path, "delay": p.delay, "want": p.want}, map[string]any{"sub": "binary", "kind": kind, "clause": last[i][0]},
+				"binary: fabio -proxy.responseheadertimeout 300ms, static first table, route %s (%s transport): %s", p.path, kind, last[i][1])
+		}
+	}
+	return map[string]any{"binary_ran": ran, "binary_probes": len(probes), "binary_unstable": unstable}
 }
